@@ -32,7 +32,7 @@ def discarding_suffix(rng, names):
     """steps that delete, merge, filter or join away rows or whole resources"""
     out = []
     pool = ['delete_first', 'delete_last', 'delete_all_but_first', 'filter_none', 'filter_some', 'concat', 'join_delete',
-            'join_keep', 'dedup', 'delete_fields', 'sort', 'take_one']
+            'join_keep', 'dedup', 'delete_fields', 'sort', 'take_one', 'mutate_in_place', 'mutate_in_place']
     for _ in range(rng.randint(1, 3)):
         k = rng.choice(pool)
         if k == 'delete_first':
@@ -61,6 +61,12 @@ def discarding_suffix(rng, names):
             out.append((k, lambda: DF.delete_fields(['w'])))
         elif k == 'sort':
             out.append((k, lambda: DF.sort_rows('{k}')))
+        elif k == 'mutate_in_place':
+            def redact(row):
+                # edits the row objects it is handed: what an observer upstream captured must not change
+                row['v'] = 'REDACTED'
+                row['k'] = (row['k'] or 0) + 1000
+            out.append((k, lambda: redact))
         elif k == 'take_one':
             def take_one(rows):
                 # a disciplined consumer that drops rows (it still iterates them all)
@@ -96,12 +102,13 @@ class Capture:
         self.dir = os.path.join(base, tag)
         self.calls = []
         self.seen = [0]
+        self.num_rows = 1 + sum(map(ord, tag[1:])) % 3     # 1..3, the same for the full and the alone run of a case
 
     def steps(self):
         k = self.kind
         if k == 'printer':
-            return [DF.printer(num_rows=1, header_print=lambda h, kw: self.calls.append(('h', h)),
-                               table_print=lambda t, kw: self.calls.append(('t', None)))]
+            return [DF.printer(num_rows=self.num_rows, header_print=lambda h, kw: self.calls.append(('h', h)),
+                               table_print=lambda t, kw: self.calls.append(('t', t)))]
         if k == 'dump_to_path':
             return [DF.dump_to_path(self.dir)]
         if k == 'dump_to_path_json':
@@ -146,6 +153,9 @@ class Capture:
         if k == 'checkpoint':
             with open(os.path.join(self.dir, 'cp', 'stream.ndjson'), 'rb') as f:
                 return f.read()
+        if k == 'printer':
+            # what it reported: resource headers and the printed tables
+            return {'%d:%s' % (i, c[0]): str(c[1]).encode('utf-8') for i, c in enumerate(self.calls)}
         return None
 
 
